@@ -413,15 +413,19 @@ def watchIo (st : St) (fd : Int) (cond flags : Nat) (slot : Int) : St × Nat :=
   let r := insertWatch st st.iow flags a
   ({ r.1 with iow := r.2 }, a)
 
-/-- `tickit_watch_signal` (the default loop supplies the `signal` hook, so the self-pipe fallback
-    `watch_signal` is never used). -/
+/-- `tickit_watch_signal` up to the call of the `signal` hook: allocate, fill in, `evloop_signal`
+    (the default loop supplies the hook, so the self-pipe fallback `watch_signal` is never used). -/
+def watchSignalPre (st : St) (signum : Int) (flags : Nat) (slot : Int) : St :=
+  (evloopSignal (st.alloc { type := .signal, flags := flags &&& (BIND_UNBIND ||| BIND_DESTROY), slot := slot, signum := signum }).1 signum).1.setW
+    st.heap.length
+    { (evloopSignal (st.alloc { type := .signal, flags := flags &&& (BIND_UNBIND ||| BIND_DESTROY), slot := slot, signum := signum }).1 signum).1.getW st.heap.length with
+      evi := (evloopSignal (st.alloc { type := .signal, flags := flags &&& (BIND_UNBIND ||| BIND_DESTROY), slot := slot, signum := signum }).1 signum).2 }
+
+/-- `tickit_watch_signal`: … and `insert_watch(&t->signals, flags, watch)`. -/
 def watchSignal (st : St) (signum : Int) (flags : Nat) (slot : Int) : St × Nat :=
-  let a := st.heap.length
-  let st := (st.alloc { type := .signal, flags := flags &&& (BIND_UNBIND ||| BIND_DESTROY), slot := slot, signum := signum }).1
-  let r := evloopSignal st signum
-  let st := r.1.setW a { r.1.getW a with evi := r.2 }
-  let r := insertWatch st st.signals flags a
-  ({ r.1 with signals := r.2 }, a)
+  ({ (insertWatch (watchSignalPre st signum flags slot) (watchSignalPre st signum flags slot).signals flags st.heap.length).1 with
+     signals := (insertWatch (watchSignalPre st signum flags slot) (watchSignalPre st signum flags slot).signals flags st.heap.length).2 },
+   st.heap.length)
 
 /-- The harness's `waitpid(pid, &wstatus, WNOHANG)`: `(st', ret, wstatus)`. -/
 structure WaitRes where
@@ -722,19 +726,25 @@ def sigCb (fuel : Nat) (st : St) (a : Nat) (signum : Int) : St :=
     else st     -- on_sigwinch: the headless terminal has no output descriptor
   else st
 
-/-- `tickit_evloop_invoke_sigwatches`: `this = this->next` is read after the callback. -/
-def sigwatchLoop (fuel : Nat) (st : St) (signum : Int) (this : Option Nat) : St :=
+/-- `tickit_evloop_invoke_sigwatches`: `this = this->next` is read after the callback.
+    Returns the state and the watches the walk visited, in order (read only by the theorems of C18). -/
+def sigwatchLoopT (fuel : Nat) (st : St) (signum : Int) (this : Option Nat) : St × List Nat :=
   match fuel with
-  | 0 => if st.isOk then { st with status := .outOfFuel } else st
+  | 0 => (if st.isOk then { st with status := .outOfFuel } else st, [])
   | fuel + 1 =>
-    if !st.isOk then st else
+    if !st.isOk then (st, []) else
     match this with
-    | none => st
+    | none => (st, [])
     | some a =>
-      if !st.live a then st.fail .sigLoopThis
-      else if !(sigCb fuel st a signum).isOk then sigCb fuel st a signum
-      else if !(sigCb fuel st a signum).live a then (sigCb fuel st a signum).fail .sigLoopThis
-      else sigwatchLoop fuel (sigCb fuel st a signum) signum (succOf a (sigCb fuel st a signum).signals)
+      if !st.live a then (st.fail .sigLoopThis, [])
+      else if !(sigCb fuel st a signum).isOk then (sigCb fuel st a signum, [a])
+      else if !(sigCb fuel st a signum).live a then ((sigCb fuel st a signum).fail .sigLoopThis, [a])
+      else
+        ((sigwatchLoopT fuel (sigCb fuel st a signum) signum (succOf a (sigCb fuel st a signum).signals)).1,
+         a :: (sigwatchLoopT fuel (sigCb fuel st a signum) signum (succOf a (sigCb fuel st a signum).signals)).2)
+
+def sigwatchLoop (fuel : Nat) (st : St) (signum : Int) (this : Option Nat) : St :=
+  (sigwatchLoopT fuel st signum this).1
 
 /-- The `for(signum = 1; signum < NSIG; signum++)` loop of `dispatch_signals`. -/
 def dispatchLoop (fuel : Nat) (st : St) (pending : List Int) : List Int → St
